@@ -387,13 +387,26 @@ func genOptKeyRef(t *rapid.T, label string, pct int, keys []K, prefixes []string
 	return &kr
 }
 
+// genOptUpperRef is genOptKeyRef for upper bounds: half of them are bare
+// prefixes (the usual shape of an upper bound, and the only one under which
+// NextPrefix is issued).
+func genOptUpperRef(t *rapid.T, label string, pct int, keys []K, prefixes []string) *KeyRef {
+	kr := genOptKeyRef(t, label, pct, keys, prefixes)
+	if kr != nil && rapid.Bool().Draw(t, "bare_upper") {
+		if kr.Adj != 4 {
+			kr.Adj = 1
+		}
+	}
+	return kr
+}
+
 func genIterPlans(t *rapid.T, keys []K, prefixes []string, totalOps int) []IterPlan {
 	n := rapid.IntRange(1, 3).Draw(t, "niters")
 	var out []IterPlan
 	for i := 0; i < n; i++ {
 		ip := IterPlan{
 			Lo:        genOptKeyRef(t, "has_lo", 35, keys, prefixes),
-			Hi:        genOptKeyRef(t, "has_hi", 35, keys, prefixes),
+			Hi:        genOptUpperRef(t, "has_hi", 35, keys, prefixes),
 			UseFilter: rapid.IntRange(0, 3).Draw(t, "use_filter") > 0,
 		}
 		nops := rapid.IntRange(totalOps/(2*n), totalOps/n+1).Draw(t, "nops")
@@ -406,7 +419,7 @@ func genIterPlans(t *rapid.T, keys []K, prefixes []string, totalOps int) []IterP
 			// SetBounds parameters are always drawn so the plan's shape does not
 			// depend on the state-dependent interpretation of Kind.
 			op.Lo = genOptKeyRef(t, "sb_lo", 50, keys, prefixes)
-			op.Hi = genOptKeyRef(t, "sb_hi", 50, keys, prefixes)
+			op.Hi = genOptUpperRef(t, "sb_hi", 50, keys, prefixes)
 			op.Mono = rapid.SampledFrom([]int{0, 1, 1, 2, 2}).Draw(t, "sb_mono")
 			ip.Ops = append(ip.Ops, op)
 		}
